@@ -300,11 +300,11 @@ class Ctx(object):
         extra = []
         kind, dt = self.kind, self.dt
 
-        def shows(kind, dt, u):
+        def shows(kind, dt, u, mapped=False):
             """True / False: the control shows / does not show the symptom; None: the control
             is not applicable (NumPy refuses it)."""
             c2 = Ctx(kind, dt, control=True)
-            rerun(c2, u)
+            rerun(c2, u, mapped)
             if c2.evals == 0:
                 return None
             return symptom in [f[3] for f in c2.fails]
@@ -321,13 +321,20 @@ class Ctx(object):
                     uf = UF[n]
                 else:
                     extra.append(uftag or 'ufunc=' + uf.__name__)
+        mapped = False
         if dt != 'float64':
-            if shows(kind, 'float64', uf):
+            verdict = shows(kind, 'float64', uf)
+            if verdict is None:
+                # not applicable with this dtype keyword: take the corresponding keyword of
+                # the float64 alphabet
+                verdict = shows(kind, 'float64', uf, True)
+                mapped = bool(verdict)
+            if verdict:
                 dt = 'float64'
             else:
                 extra.append('elem=' + dt)
         ck = CONTROL.get(kind)
-        if ck is not None and not shows(ck, dt, uf):
+        if ck is not None and not shows(ck, dt, uf, mapped):
             extra.append(KIND_TAG[kind])
         return extra
 
@@ -587,6 +594,18 @@ def _result_tag(ek, rk):
     return None
 
 
+def _map_kw(kw, dt_from, dt_to):
+    """The same case in a control state of another dtype: the i-th ``dtype=`` keyword of the
+    alphabet of ``dt_from`` becomes the i-th of ``dt_to`` (so 'a narrower / wider dtype than the
+    element' stays that)."""
+    if dt_from == dt_to or 'dtype' not in kw or kw['dtype'] not in DTYPE_KW[dt_from]:
+        return kw
+    i = DTYPE_KW[dt_from].index(kw['dtype'])
+    kw = dict(kw)
+    kw['dtype'] = DTYPE_KW[dt_to][min(i, len(DTYPE_KW[dt_to]) - 1)]
+    return kw
+
+
 def _call(uf, method, args, kw):
     if method == '__call__':
         return uf(*args, **kw)
@@ -705,8 +724,9 @@ def run_case(ctx, uf, method, ops, outspec, kw, ref0=None, extra_tags=()):
         ek = np.dtype(ctx.dt).kind
         uftag = _result_tag(ek, rk)
 
-    def rerun(c2, u):
-        run_case(c2, u, method, ops, outspec, kw, extra_tags=extra_tags)
+    def rerun(c2, u, mapped=False):
+        run_case(c2, u, method, ops, outspec, _map_kw(kw, ctx.dt, c2.dt) if mapped else kw,
+                 extra_tags=extra_tags)
 
     # ---- build outs
     o_outs, r_outs = [], []
@@ -1279,11 +1299,12 @@ def _legacy_one(ctx, name, uf, x_fill, x2spec, outspec, kw, cls, red=None):
             run_case(c2, uf, 'reduce', ops, outspec, rkw)
         np_syms = [f[3] for f in c2.fails]
 
-    def rerun(c2, u):
+    def rerun(c2, u, mapped=False):
+        kw2 = _map_kw(kw, ctx.dt, c2.dt) if mapped else kw
         if u is None:
-            _legacy_one(c2, name, uf, x_fill, x2spec, outspec, kw, cls, red=red)
+            _legacy_one(c2, name, uf, x_fill, x2spec, outspec, kw2, cls, red=red)
         else:
-            _legacy_one(c2, u.__name__, u, x_fill, x2spec, outspec, kw, cls)
+            _legacy_one(c2, u.__name__, u, x_fill, x2spec, outspec, kw2, cls)
 
     for sym, t in problems:
         if np_syms is not None and sym in np_syms:
